@@ -176,6 +176,29 @@ def gen_mults(rng, n, total):
     return r
 
 
+def bbfg_abs_sum(A, rows, cols):
+    """sum of the absolute values of the BBFG summands / 2^(n-1): the magnitude against which the kernel's
+    floating-point cancellation error has to be judged (the summands are huge and cancel for sparse matrices)"""
+    import itertools
+    from math import comb
+    A = np.asarray(A, dtype=complex)
+    nz = [i for i, r in enumerate(rows) if r > 0]
+    if not nz:
+        return 1.0
+    k = min(nz, key=lambda i: rows[i])
+    mults = list(rows); mults[k] -= 1
+    tot = 0.0
+    for g in itertools.product(*[range(m + 1) for m in mults]):
+        w = 1.0
+        for m, gi in zip(mults, g):
+            w *= comb(m, gi)
+        colsum = A[k].copy()
+        for i, (m, gi) in enumerate(zip(mults, g)):
+            colsum = colsum + A[i] * (m - 2 * gi)
+        tot += w * float(np.prod(np.abs(colsum) ** np.array(cols, dtype=float)))
+    return tot / 2.0 ** (sum(rows) - 1)
+
+
 def flatc(A):
     return " ".join(f"{float(z.real)!r} {float(z.imag)!r}" for z in np.asarray(A).reshape(-1))
 
@@ -229,7 +252,7 @@ def permanents(ctx, binary, n_cases, fails, mism):
                   sample={"rows": rows, "cols": cols, "native": o64} if max(rows + [0]) >= 2 and len(ctx.samples) < 4 else None)
         e = val(ex) if ex not in ("none", "bad-op") else None
         # model vs definition: exact algorithm model must equal the defining sum
-        scale = float(np.prod([max(1e-300, float(np.sum(np.abs(A[i])))) ** rows[i] for i in range(len(rows))])) if len(rows) else 1.0
+        scale = bbfg_abs_sum(A, rows, cols) if (len(rows) and sum(rows) == sum(cols)) else 1.0
         if e is not None and spec is not None and abs(e - spec) > 1e-9 * max(1.0, abs(spec)):
             mism.append((l[:200], f"algorithm model {e} != definition {spec}", ""))
         ref = spec if spec is not None else e
@@ -241,7 +264,7 @@ def permanents(ctx, binary, n_cases, fails, mism):
             v = parse_native(out)
             if v is None:
                 fails.append((f"perm-native-output:{tag}", f"permanent_cpp<{tag}> printed `{out[:60]}`", {"rows": rows, "cols": cols})); continue
-            if abs(v - ref) > tol * max(abs(ref), 1e-3 * scale, 1e-300):
+            if abs(v - ref) > tol * max(abs(ref), 1e-300) + (1e-12 if tag == "float64" else 1e-4) * scale:
                 if mxi >= 2 ** 31:
                     dist["overflow_explained"] += 1
                     fails.append(("perm:int32-binomial-overflow", f"permanent_cpp<{tag}>(rows {rows}, cols {cols}) = {v}, definition {ref}: the `int` binomial weight overflows (exact model: intermediate value {mxi} >= 2^31)",
@@ -260,7 +283,7 @@ def permanents(ctx, binary, n_cases, fails, mism):
                     if spec is not None:
                         fails.append(("perm-python-raise", f"permanent raised {type(exc).__name__}: {exc}", {"rows": rows, "cols": cols}))
                     continue
-                if spec is not None and abs(v - spec) > 1e-10 * max(abs(spec), 1e-3 * scale):
+                if spec is not None and abs(v - spec) > 1e-10 * abs(spec) + 1e-12 * scale:
                     fails.append((f"perm-python:{'strided' if strided else 'contiguous'}", f"piquasso._math.permanent.permanent(rows {rows}, cols {cols}) = {v}, definition {spec}", {"rows": rows, "cols": cols, "matrix": repr(A.tolist())}))
         # Laplace variant: one more column particle; entry j = permanent with column j removed once
         if 0 < sum(rows) <= 7 and len(rows) >= 1:
@@ -272,7 +295,7 @@ def permanents(ctx, binary, n_cases, fails, mism):
                         continue
                     c3 = list(c2); c3[j] -= 1
                     s = perm_def(A.tolist(), rows, c3)
-                    if abs(complex(lap[j]) - s) > 1e-10 * max(abs(s), 1e-3 * scale):
+                    if abs(complex(lap[j]) - s) > 1e-10 * abs(s) + 1e-11 * max(scale, 1.0) * max(1, sum(rows)):
                         fails.append(("perm-laplace", f"permanent_laplace(rows {rows}, cols {c2})[{j}] = {complex(lap[j])}, sub-permanent {s}", {"rows": rows, "cols": c2, "matrix": repr(A.tolist())}))
                         break
             except Exception as exc:
